@@ -153,6 +153,12 @@ class Exec:
                 self.ledger.resolver_touched(conflict_region_lines(old))
                 w.raw_git(repo, "add", "--", p)
             res["code"] = 0
+        elif kind == "stage":
+            # what `git add -p` produces: an index entry whose content is a chosen subset of hunks
+            r = w.raw_git(repo, "hash-object", "-w", "--stdin", stdin=op["content"].encode("utf-8"))
+            sha1 = r.out.strip()
+            r2 = w.raw_git(repo, "update-index", "--add", "--cacheinfo", "100644,%s,%s" % (sha1, op["path"]))
+            res.update(code=r.code or r2.code, err=r.err + r2.err)
         elif kind == "write_raw":
             # a file write outside any protocol (attributes files, hook scripts, corruption)
             w.write(op.get("root") and os.path.join(w.root, op["root"]) or repo, op["path"], op["content"])
